@@ -226,6 +226,88 @@ def f1_f4(ctx, res: Result, ci: ClassInfo) -> CacheModel:
                                 f"cached field {f} is re-assigned outside the refresh branch: what the object reports afterwards depends on which methods were called before",
                                 construct=src(n)[:300])
     res.count("cache_stores", nstores)
+    # F4b: every other private field written after construction is a configuration slot (assigned in its
+    # property setter from the setter's parameter); anything else is state that depends on call history
+    slots = _slots(ci)
+    for fi in ci.all_funcs():
+        if fi.name == "__init__":
+            continue
+        for n in walk_no_nested(fi.node):
+            if not isinstance(n, (ast.Assign, ast.AugAssign, ast.AnnAssign)):
+                continue
+            tgts = n.targets if isinstance(n, ast.Assign) else [n.target]
+            for t in tgts:
+                f = _self_attr(t, cn)
+                if not f or f in model.cache_fields or not f.startswith("_" + cn.lstrip("_") + "__"):
+                    continue
+                is_slot = False
+                if fi.kind == "setter" and slots.get(fi.name) == f and isinstance(n, (ast.Assign, ast.AnnAssign)) and n.value is not None:
+                    pname = fi.params()[1] if len(fi.params()) > 1 else None
+                    names = {x.id for x in ast.walk(n.value) if isinstance(x, ast.Name)}
+                    is_slot = pname in names
+                inst = f"{fi.qualname}{'[setter]' if fi.kind == 'setter' else ''}:{f}"
+                if is_slot:
+                    res.ok("F4-cache-write-only-in-refresh", inst, fi.site(n), fi.qualname, "configuration slot assigned from the setter's argument")
+                elif id(n) in inside:
+                    res.ok("F4-cache-write-only-in-refresh", inst, fi.site(n), fi.qualname, "assigned inside the refresh branch")
+                else:
+                    res.bad("F4-cache-write-only-in-refresh", inst, fi.site(n), fi.qualname,
+                            f"private field {f} is (re)assigned outside the staleness-guarded refresh and is not a configuration slot: derived state that is not recomputed when the configuration snapshot changes makes results depend on call history",
+                            construct=src(n)[:200])
+    # F4c: a private field that is filled in place after construction (memo tables) must be one of
+    # the cache fields, i.e. be re-created whenever the configuration snapshot changes
+    for fi in ci.all_funcs():
+        if fi.name == "__init__":
+            continue
+        for n in walk_no_nested(fi.node):
+            f = None
+            if isinstance(n, (ast.Assign, ast.AugAssign)):
+                t = n.targets[0] if isinstance(n, ast.Assign) else n.target
+                if isinstance(t, ast.Subscript):
+                    f = _self_attr(t.value, cn)
+            elif isinstance(n, ast.Call) and isinstance(n.func, ast.Attribute) and n.func.attr in ("append", "extend", "update", "add", "setdefault", "pop", "clear", "insert", "remove"):
+                f = _self_attr(n.func.value, cn)
+            if not f or not f.startswith("_" + cn.lstrip("_") + "__"):
+                continue
+            inst = f"{fi.qualname}:{f}[...]"
+            if f in model.cache_fields:
+                res.ok("F4-cache-write-only-in-refresh", inst, fi.site(n), fi.qualname, "memo table is one of the fields re-created by the refresh")
+            else:
+                res.bad("F4-cache-write-only-in-refresh", inst, fi.site(n), fi.qualname,
+                        f"private field {f} is filled in place here but is not re-created by the staleness-guarded refresh: entries computed for an earlier configuration (e.g. other heralds) survive a reconfiguration",
+                        construct=src(n)[:200])
+    # F6: the snapshot is the commit point of the refresh: nothing that may raise follows it in the branch
+    for fi, n, neg in model.refresh_ifs:
+        if fi not in model.refresh_funcs:
+            continue
+        body = n.orelse if neg else n.body
+        summ = ctx.eng.summary(fi)
+        raising = {}
+        from ..index import FuncInfo as _FI
+        for node, callee in summ.calls:
+            if isinstance(callee, _FI) and ctx.eng.summary(callee).may_raise:
+                raising[id(node)] = callee.qualname
+        seen_snap = False
+        bad = None
+        for st in body:
+            if seen_snap:
+                for x in ast.walk(st):
+                    if isinstance(x, ast.Raise):
+                        bad = (x, "raise")
+                    elif isinstance(x, ast.Call) and id(x) in raising and raising[id(x)] != model.snapfn.qualname:
+                        bad = (x, f"call to {raising[id(x)]} (may raise)")
+            for x in ast.walk(st):
+                if isinstance(x, (ast.Assign, ast.AnnAssign)):
+                    for t in (x.targets if isinstance(x, ast.Assign) else [x.target]):
+                        if _self_attr(t, cn) == model.snapfield:
+                            seen_snap = True
+        inst = f"{fi.qualname}:{model.snapfield}"
+        if bad is None:
+            res.ok("F6-snapshot-is-commit-point", inst, fi.site(n), fi.qualname, "no possible raise after the snapshot is recorded")
+        else:
+            res.bad("F6-snapshot-is-commit-point", inst, fi.site(bad[0]), fi.qualname,
+                    f"{bad[1]} can happen after the configuration snapshot was already recorded: if the recomputation fails, the next read sees 'not stale' and returns the previous configuration's distribution",
+                    construct=src(bad[0])[:160])
     # F5: the predicate compares every snapshot entry
     p = model.pred
     loops = [n for n in walk_no_nested(p.node) if isinstance(n, ast.For)]
